@@ -35,9 +35,10 @@ class FakeRow:
 
 
 class FakeFrame:
-    def __init__(self, records=None, columns=None):
+    def __init__(self, records=None, columns=None, index=None):
         self.records = [dict(r) for r in (records or [])]
         self._columns = list(columns) if columns is not None else None
+        self.index = list(index) if index is not None else list(range(len(self.records)))   # row labels (kept by selections)
         self.attrs = {}
 
     @property
@@ -59,6 +60,11 @@ class FakeFrame:
         return len(self.records)
 
     def __getitem__(self, col):
+        if isinstance(col, list):
+            # column selection: a frame with the same row labels
+            out = FakeFrame([{k: r.get(k) for k in col} for r in self.records], columns=col, index=self.index)
+            out.attrs = dict(self.attrs)
+            return out
         return FakeColumn([r.get(col) for r in self.records])
 
     def __setitem__(self, col, values):
@@ -66,8 +72,19 @@ class FakeFrame:
             r[col] = v
 
     def iterrows(self):
-        for i, r in enumerate(self.records):
+        for i, r in zip(self.index, self.records):
             yield i, FakeRow(r)
+
+    def take_rows(self, positions):
+        """row selection as a boolean mask / .loc would do it: records at `positions`, labels kept"""
+        out = FakeFrame([self.records[i] for i in positions], columns=self._columns, index=[self.index[i] for i in positions])
+        out.attrs = dict(self.attrs)
+        return out
+
+    def to_numpy(self, dtype=None):
+        import numpy as np
+        cols = self.columns
+        return np.array([[r.get(k) for k in cols] for r in self.records], dtype=dtype if dtype is not None else object).reshape(len(self.records), len(cols))
 
 
 def to_numeric(col, errors="raise"):
